@@ -1,10 +1,11 @@
 SPECIFICATION ESpec
 CONSTANTS
-  Plain = {1, 2, 3}
+  Plain = {p1, p2, p3}
   Limit = 2
   MaxId = 7
   MaxJobs = 1
-  Forge = {3}
+  MaxCrash = 0
+  Forge = {p3}
   TamperOn = TRUE
   Deviations = {}
 INVARIANTS ETypeOK Recoverable IndexRight FetchSound AckedFetchable
